@@ -42,6 +42,7 @@ CONSTANTS Fam,          \* alphabet family, see below
 (* nodes is not where orders matter), then any order of the family's calls. *)
 
 T3 == {"str", "int", "any"}
+Ord6(k) == CASE k = "n1" -> 1 [] k = "n2" -> 2 [] k = "n3" -> 3 [] k = "n4" -> 4 [] k = "n5" -> 5 [] OTHER -> 6
 Hdr(fe, gi, go, st) == [fe |-> fe, gi |-> gi, go |-> go, state |-> st]
 Plain(k, i, o, e) == NodeOp(k, i, o, e, "", "")
 \* typed-node declarations of the flow families: (in, out, emitted dynamic type)
@@ -128,7 +129,9 @@ Alphabet(K) ==   \* K = keys declared so far
          {EdgeOp(p[1], p[2], "") : p \in {q \in {"n1", "n2", "n3"} \X {"n1", "n2", "n3", END} : q[1] # q[2] /\ q # <<"n2", "n3">>}}
          \cup {BranchOp(p[1], "str", p[2], p[2][1]) : p \in {"n1", "n2", "n3"} \X {<<"n2", END>>, <<"n3", END>>, <<"n2", "n3">>}}
     [] Fam = "chain" ->  \* the chain names its nodes itself; the case uses the next free key
-         LET nk == IF "n1" \notin K THEN "n1" ELSE IF "n2" \notin K THEN "n2" ELSE "n3" IN
+         \* (a chain that was refused by Compile can still be appended to, so more keys than MaxAdds are needed)
+         LET free == {k \in {"n1", "n2", "n3", "n4", "n5", "n6"} : k \notin K}
+             nk == IF free = {} THEN "n6" ELSE CHOOSE k \in free : \A k2 \in free : Ord6(k) <= Ord6(k2) IN
          {Plain(nk, "str", "str", "str"), Plain(nk, "str", "int", "int"), Plain(nk, "int", "str", "str")}
     [] Fam = "wf" -> {}
 CompileAlphabet == IF Fam \in {"seq", "seqs", "seqp"} THEN {CompileOp("any", ""), CompileOp("all", ""), CompileOp("all", "maxsteps"), CompileOp("any", "maxsteps")}
@@ -140,7 +143,7 @@ CompileAlphabet == IF Fam \in {"seq", "seqs", "seqp"} THEN {CompileOp("any", "")
 PostAlphabet(K) == IF Fam \in {"seq", "seqs", "seqp", "chain"} THEN Alphabet(K) \cup CompileAlphabet
                    ELSE IF Fam = "wf" THEN   \* on the retained *WorkflowNode handles (these calls return no error value)
                         {CompileOp("any", ""), CompileOp("any", "maxsteps"), StaticOp("n1", "s", "b"), StaticOp("n1", "s2", "b"), EdgeOp(START, "n1", "fm2")}
-                   ELSE IF Fam \in {"wfin", "subopt"} THEN CompileAlphabet
+                   ELSE IF Fam \in {"wfin", "subopt", "wfpt"} THEN CompileAlphabet
                    ELSE {EdgeOp("n1", END, ""), PassOp("p9", "", ""), BranchOp(START, "any", <<"n1", END>>, END), CompileOp("any", "")}
 
 --------------------------------------------------------------------------------
@@ -154,7 +157,7 @@ vars == <<hdr, todo, plen, nodes, ctrl, data, brs, tv, mayE, preNode, fmk, berr,
 builder == <<nodes, ctrl, data, brs, tv, mayE, preNode, fmk, berr, compiled, startN, endN, ch, wf, snap>>
 case == <<hdr, todo, plen, hist>>
 
-AllKeys == {"n1", "n2", "n3", "p1", "p2", "p9", "zz"}
+AllKeys == {"n1", "n2", "n3", "n4", "n5", "n6", "p1", "p2", "p9", "zz"}
 NoNode == [kind |-> "none", i |-> "nil", o |-> "nil", s |-> ""]     \* s: nested graph kind + compile options of a sub node
 NoCur == [j |-> 0, a |-> "", b |-> "", rem |-> {}, op |-> CompileOp("", "")]
 NoSnap == [set |-> FALSE, mayE |-> {}, brmay |-> <<>>, preNode |-> [k \in AllKeys |-> 0]]
